@@ -553,3 +553,42 @@ Example ex_repeater :
   a_get (repeater (as_arr ex_arr) (v3z 4 4 4)) (v3z 5 0 1) = a_get (as_arr ex_arr) (v3z 2 0 1) /\
   a_get (repeater (as_arr ex_arr) (v3z 4 4 4)) (v3z 3 0 1) = 5 /\ in3 (v3z 4 4 4) (v3z 3 0 1).
 Proof. unfold in3. cbn [vec3_x vec3_y vec3_z v3z]. repeat split; try lia; vm_compute; reflexivity. Qed.
+
+(* ---- getValueRange through every adaptor bounds, tightly, the values the adaptor's own get returns *)
+Theorem value_range_tight_over :
+  forall a b e, in_region b e b -> tight_over (a_get a) b e (value_range a b e).
+Proof. exact ProofsArr.value_range_tight_over. Qed.
+Print Assumptions value_range_tight_over.
+
+Theorem value_range_accessor :
+  forall conv a b e, in_region b e b -> tight_over (fun c => conv (a_get a c)) b e (value_range (accessor conv a) b e).
+Proof. exact ProofsArr.value_range_accessor. Qed.
+Print Assumptions value_range_accessor.
+
+Theorem value_range_shifted :
+  forall a s b e, in_region b e b -> tight_over (fun c => a_get a (shift_coord (a_dims a) s c)) b e (value_range (shifted a s) b e).
+Proof. exact ProofsArr.value_range_shifted. Qed.
+Print Assumptions value_range_shifted.
+
+Theorem value_range_subbox :
+  forall a (lo hi : vec3 IZ) b e, in_region b e b ->
+  tight_over (fun c => a_get a (mk_vec3 IZ (vec3_x c + vec3_x lo) (vec3_y c + vec3_y lo) (vec3_z c + vec3_z lo))) b e
+             (value_range (subbox a lo hi) b e).
+Proof. exact ProofsArr.value_range_subbox. Qed.
+Print Assumptions value_range_subbox.
+
+Theorem value_range_multislice :
+  forall s0 rest b e, in_region b e b -> tight_over (a_get (multislice s0 rest)) b e (value_range (multislice s0 rest) b e).
+Proof. exact ProofsArr.value_range_multislice. Qed.
+Print Assumptions value_range_multislice.
+
+Theorem value_range_repeater :
+  forall a rs b e, in_region b e b -> tight_over (fun c => a_get a (rep_coord rs c)) b e (value_range (repeater a rs) b e).
+Proof. exact ProofsArr.value_range_repeater. Qed.
+Print Assumptions value_range_repeater.
+
+Theorem accessor_range_endpoints_refuted :
+  exists conv a b e lo hi, in_region b e b /\ value_range a b e = Some (lo, hi) /\
+    value_range (accessor conv a) b e = Some (3, 255) /\ (conv lo, conv hi) = (255, 44).
+Proof. exact ProofsArr.accessor_range_endpoints_refuted. Qed.
+Print Assumptions accessor_range_endpoints_refuted.
